@@ -179,7 +179,15 @@ pub fn build(repo: &Path, root: &Path, with_big: bool) -> Tree {
     }
     // tiny synthetic fixtures (a recursive input pair, an enum + interface): small enough for the
     // instruction-level scheduler (Miri batch), and part of the ordinary workload too
-    let syn: [(&str, &str, &str); 2] = [
+    let syn: [(&str, &str, &str); 3] = [
+        (
+            // one document, many operations: fragments in a diamond (G reached directly and through
+            // F), operation names that collide once snake-cased, selections that flatten to the
+            // same response type name
+            "syn_multi",
+            "schema { query: Q }\nenum Mood { HAPPY SAD }\ntype Bits { a: Int, b: Int }\ntype Author { name: String, mood: Mood, bits: Bits }\ntype Post { title: String, author: Author }\ntype Hero { name: String, friends: [Hero] }\ntype Q { feed: [Post], me: Author, hero: Hero, heroFriends: [Hero], thing(id: ID): Post }\n",
+            "fragment G on Author { name mood bits { a } }\nfragment F on Post { title author { ...G } }\nquery Dashboard { me { ...G } feed { ...F } }\nquery Feed { feed { ...F } }\nquery getThing { thing(id: \"1\") { title } }\nquery GetThing { thing(id: \"2\") { title author { name } } }\nquery get_thing { thing { title } }\nquery Crew { hero { friends { name } } heroFriends { name } }\nquery Crew2 { hero { name friends { friends { name } } } heroFriends { friends { name } } }\n",
+        ),
         (
             "syn_rec",
             "schema { query: Q }\nscalar Stamp\nenum Tone { LOW HIGH }\ntype Q { f(a: Rec, b: Other): Int }\ninput Rec { next: Rec, v: Int, o: Other, at: Stamp }\ninput Other { x: Int, r: [Rec!], tone: Tone }\ninput Leaf { y: String }\ninput Pair { l: Leaf, m: Leaf }\n",
@@ -215,6 +223,9 @@ pub fn build(repo: &Path, root: &Path, with_big: bool) -> Tree {
                 fs::write(d.join(file), text).unwrap();
                 fixtures.push(Fixture { dir: name.to_string(), file: file.into(), is_schema: false, ops: operation_names(text), big: false, deepbad: false });
             }
+        }
+        if name == "syn_multi" {
+            continue;
         }
         let sibling = if name == "syn_rec" { query.replace("query Op(", "query Oq(") } else { query.replace("query E(", "query F(") };
         assert_eq!(sibling.len(), query.len());
